@@ -526,7 +526,8 @@ fn leaf_candidates(kind: Leaf, orig: &Value, c: &Consts, rng: &mut Rng) -> Vec<(
             };
             let pos = 2 * (rng.below((ntok.max(2) / 2) as u64) as usize);
             for (l, t) in [("0", "0"), ("i32::MAX", "2147483647"), ("i32::MAX+1", "2147483648"), ("u32::MAX", "4294967295"),
-                           ("u32::MAX+1", "4294967296"), ("-1", "-1"), ("+1", "+1"), ("1.0", "1.0"), ("2", "2"), ("65536", "65536"), ("hex", "FF")] {
+                           ("u32::MAX+1", "4294967296"), ("-1", "-1"), ("+1", "+1"), ("1.0", "1.0"), ("2", "2"), ("65536", "65536"), ("hex", "FF"),
+                           ("2^26-1", "67108863"), ("2^26", "67108864"), ("2^30", "1073741824")] {
                 add(&format!("point=excess index {}", l), with_tok(pos, t));
             }
             for (l, t) in [("0", "0".to_string()), ("non-hex", "XYZ".to_string()), ("64 F", "F".repeat(64)), ("65 hex digits", "1".repeat(65)),
@@ -799,6 +800,44 @@ fn probe() -> Result<(), String> {
         show(&format!("for_issued, {{{}}}, max_cred_num = {}", i, l), r.tag(), r.msg());
     }
     let _ = &mut rc;
+    // 9: point strings: over-long coordinates and large excess indices, decode + arithmetic
+    let g2 = vf::PointG2::new_generator().map_err(e)?;
+    let g1 = vf::PointG1::new_generator().map_err(e)?;
+    let s2 = g2.to_string().map_err(e)?;
+    let toks: Vec<String> = s2.split(' ').map(|x| x.to_string()).collect();
+    let mut variants: Vec<(String, String)> = vec![];
+    for n in [65usize, 70, 71, 72, 73, 80, 100, 200, 1000] {
+        let mut t = toks.clone();
+        t[1] = "F".repeat(n);
+        variants.push((format!("coordinate of {} hex digits", n), t.join(" ")));
+        let mut t = toks.clone();
+        t[1] = format!("{}{}", "0".repeat(n - 64), toks[1]);
+        variants.push((format!("coordinate zero-padded to {} hex digits", n), t.join(" ")));
+    }
+    for x in ["2", "1000", "67108863", "67108864", "1073741824", "2147483647"] {
+        let mut t = toks.clone();
+        t[0] = x.to_string();
+        variants.push((format!("excess index {}", x), t.join(" ")));
+        let mut t = toks.clone();
+        for k in 0..6 {
+            t[2 * k] = x.to_string();
+        }
+        variants.push((format!("all excess indices {}", x), t.join(" ")));
+    }
+    for (what, txt) in variants {
+        let r = guard(|| vf::PointG2::from_string_inf(&txt));
+        let mut line = format!("decode {}", r.tag());
+        if let Out::Ok(p) = &r {
+            let a = guard(|| p.add(p).and_then(|q| q.add(p)).and_then(|q| q.sub(p)).and_then(|q| q.neg()));
+            let m = guard(|| p.mul(&vf::GroupOrderElement::from_bytes(&[7, 9, 200]).unwrap()));
+            let pr = guard(|| vf::Pair::pair(&g1, p));
+            let tb = guard(|| p.to_bytes());
+            line = format!("{}; add/sub/neg {} {}; mul {} {}; pair {} {}; to_bytes {}", line, a.tag(), a.msg(), m.tag(), m.msg(), pr.tag(), pr.msg(), tb.tag());
+        } else {
+            line = format!("{} {}", line, r.msg());
+        }
+        println!("{:<50} {}", what, trunc(&line, 200));
+    }
     Ok(())
 }
 
@@ -1586,8 +1625,9 @@ fn systematic(w: &World) -> Vec<Plan> {
                     let mut rng = Rng::new(7);
                     let wanted: &[&str] = match kind {
                         Leaf::Scalar => &["scalar=empty string", "scalar=non-hex text", "scalar=over-long 72 hex digits", "scalar=over-long 100 hex digits", "scalar=0", "scalar=r", "scalar=non-ascii"],
-                        Leaf::Point(_) => &["point=excess index i32::MAX+1", "point=excess index u32::MAX", "point=identity", "point=coordinate 100 hex digits", "point=coordinate non-hex", "point=empty string"],
-                        Leaf::BigNum => &["bn=0", "bn=-1", "bn=empty string"],
+                        Leaf::Point(_) => &["point=excess index i32::MAX+1", "point=excess index u32::MAX", "point=excess index i32::MAX", "point=excess index 2^30", "point=identity",
+                                             "point=coordinate 100 hex digits", "point=coordinate 1000 hex digits", "point=coordinate non-hex", "point=empty string"],
+                        Leaf::BigNum => &["bn=0", "bn=-1", "bn=empty string", "bn=NUL inside"],
                         _ => &[],
                     };
                     // the position mutated inside a point string is drawn at random: fix it by retrying
@@ -1815,6 +1855,25 @@ fn batch(thorough: bool, rng: &mut Rng) -> Result<(), String> {
             "doc": enc.as_ref().map(doc_repr).unwrap_or(Value::Null)});
         wd.begin(header);
         let mut runner = Runner { w: &w, wd: &wd, extra: vec![], id: id.clone(), label: label.clone(), verify_quota: &mut verify_quota, reg_quota: &mut reg_quota };
+        // self-test of the safety nets (development aid): C20_SELFTEST=hang|abort|stack|alloc at case 5
+        if k == 5 {
+            match std::env::var("C20_SELFTEST").as_deref() {
+                Ok("hang") => {
+                    let _ = wd.call_t("selftest", Duration::from_millis(1500), || -> Result<(), String> { loop { std::thread::sleep(Duration::from_millis(50)); } });
+                }
+                Ok("abort") => {
+                    let _ = wd.call("selftest", || -> Result<(), String> { std::process::abort() });
+                }
+                Ok("stack") => {
+                    fn rec(n: u64) -> u64 { let a = [n; 64]; if n == u64::MAX { 0 } else { rec(n + 1) + a[(n % 64) as usize] } }
+                    let _ = wd.call("selftest", || -> Result<u64, String> { Ok(rec(0)) });
+                }
+                Ok("alloc") => {
+                    let _ = wd.call("selftest", || -> Result<usize, String> { let mut v: Vec<Vec<u8>> = vec![]; loop { v.push(vec![1u8; 1 << 28]); if v.len() > 1000 { return Ok(v.len()); } } });
+                }
+                _ => {}
+            }
+        }
         match (&plan, &enc, base) {
             (Plan::Api(a), _, _) => {
                 let what = runner.drive_api(*a, &mut crng);
